@@ -10,6 +10,7 @@ if [ -n "$(git -C /repo status --porcelain --untracked-files=no)" ]; then echo "
 missed=0
 for id in $IDS; do
   prop=$(echo $id | cut -d- -f1)
+  if grep -q '"inert_since"' seeded/$id/meta.json; then echo "$id: skipped (inert on the repaired tree, see meta.json)"; continue; fi
   git -C /repo apply "$(pwd)/seeded/$id/patch.diff" || { echo "$id: patch does not apply"; missed=$((missed+1)); continue; }
   timeout 1500 ./check $prop --tier quick > $OUT/$id.log 2>&1
   rc=$?
